@@ -1,6 +1,7 @@
 import StoneVerif.Lemmas.FeCompileEq
 import StoneVerif.Lemmas.FeCompileClosed
 import StoneVerif.Lemmas.FeCompileFaithful
+import StoneVerif.Lemmas.FeCompileAcyclic
 /-!
 # C02 for the compile model: the Api is the image of the declarations
 
@@ -34,6 +35,15 @@ theorem fields_faithful (rx : String → Bool) (fs : List File) (api : Api) (h :
     Faithful rx fs api :=
   L.denote_faithful (L.compile_denote h)
 
+/-- **Acyclicity.** In a compiled Api no type is its own ancestor, and no alias is reached from its own target
+through aliases, List, Map and Nullable (`Path` = one or more steps). For parents this is the depth-first population
+with the visiting set `_resolution_in_progress` (a type enters the table after its parent); for aliases it is the
+search of `Alias.set_attributes`, which runs against the targets set so far, and the fact that a target never
+changes once set. (A struct or union MAY refer to itself through its members: nothing is claimed there.) -/
+theorem api_acyclic (rx : String → Bool) (fs : List File) (api : Api) (h : compile rx fs = .ok api) :
+    (∀ k, ¬ Path api.parentEdge k k) ∧ (∀ k, ¬ Path api.aliasEdge k k) :=
+  L.compile_acyclic h
+
 /-- the built-in names the environment starts with are the classes of `IRGenerator.data_types` -/
 theorem builtin_names_table : Tables.feBuiltinTypes = FeParams.TyKind.all.map (·.pyName) := by decide
 
@@ -54,6 +64,7 @@ def sample : List File := [
       .imp "nb",
       .type { name := "S", kind := .struct, «extends» := some (.leaf { ns := some "nb", name := "T", kw := [], nullable := false } []),
               fields := [{ name := "x", ty := some (.app1 (href "List") (.leaf (href "A" true) [])) }] },
+      .alias "B" (.app2 (href "Map") (.leaf (href "String") []) (.leaf (href "A" true) [])),
       .alias "A" (.leaf (href "U") []) ] },
   { ns := "nb", decls := [
       .type { name := "T", kind := .struct, fields := [{ name := "y", ty := some (.leaf (href "Int32") []) }] } ] },
@@ -70,6 +81,13 @@ example : (compile (fun _ => true) sample).toOption = denote (fun _ => true) sam
 
 example : ((compile (fun _ => true) sample).toOption.map (·.closed)) = some true := by decide +kernel
 
+/-- the relations `api_acyclic` speaks about are inhabited on the sample: `na.S` has the parent `nb.T`, `na.U` the
+parent `na.V`; the alias `na.B` mentions the alias `na.A` -/
+example : (compile (fun _ => true) sample).toOption.map (fun api =>
+    ((api.type? ("na", "S")).bind (·.parent), (api.type? ("na", "U")).bind (·.parent),
+     (api.alias? ("na", "B")).map (·.aliases))) =
+    some (some ("nb", "T"), some ("na", "V"), some [("na", "A")]) := by decide +kernel
+
 def errOf {α} : Except Err α → Option Err
   | .error e => some e
   | .ok _ => none
@@ -77,6 +95,12 @@ def errOf {α} : Except Err α → Option Err
 /-- a refused input: the statement is not about a model that accepts everything -/
 example : errOf (compile (fun _ => true)
     [{ ns := "na", decls := [.alias "A" (.app1 (href "List") (.leaf (href "A") []))] }]) = some .aliasCycle := by
+  decide +kernel
+
+example : errOf (compile (fun _ => true)
+    [{ ns := "na", decls := [.type { name := "S", kind := .struct, «extends» := some (.leaf (href "T") []) },
+                             .type { name := "T", kind := .struct, «extends» := some (.leaf (href "S") []) }] }])
+    = some .circular := by
   decide +kernel
 
 end Examples
